@@ -77,6 +77,32 @@ Theorem C03_hmac_generic_stream : forall key (chunks : list (list N)),
 Proof. exact hmac_generic_stream. Qed.
 Print Assumptions C03_hmac_generic_stream.
 
+(* the same over the 128-byte-block digests (SHA-384, SHA-512, SHA-512/224, SHA-512/256), below 2^64 blocks *)
+Theorem C03_hmac_generic_stream_wide : forall key (chunks : list (list N)),
+  (N.of_nat ((length key + 192 + length (concat chunks)) / 128) < 2^64)%N ->
+  hmacB_sha384 key chunks = hmac_spec sha384 128 key (concat chunks) /\
+  hmacB_sha512 key chunks = hmac_spec sha512 128 key (concat chunks) /\
+  hmacB_sha512_224 key chunks = hmac_spec sha512_224 128 key (concat chunks) /\
+  hmacB_sha512_256 key chunks = hmac_spec sha512_256 128 key (concat chunks).
+Proof. exact hmac_generic_stream_wide. Qed.
+Print Assumptions C03_hmac_generic_stream_wide.
+
+(* hmac_finish_and_verify (src/hmac.c) accepts exactly the MAC the standard defines *)
+Theorem C03_hmac_verify_generic : forall key (chunks : list (list N)) mac,
+  (hmacB_verify_sm3 key chunks mac = true <-> mac = hmac_spec sm3 64 key (concat chunks)) /\
+  (hmacB_verify_sha1 key chunks mac = true <-> mac = hmac_spec sha1 64 key (concat chunks)) /\
+  (hmacB_verify_sha224 key chunks mac = true <-> mac = hmac_spec sha224 64 key (concat chunks)) /\
+  (hmacB_verify_sha256 key chunks mac = true <-> mac = hmac_spec sha256 64 key (concat chunks)).
+Proof. exact hmac_verify_generic. Qed.
+Print Assumptions C03_hmac_verify_generic.
+
+(* sm3_digest_* (src/sm3_digest.c): plain SM3 without a key, SM3-HMAC with a 12..64-byte key,
+   refused for other key lengths; every chunking, empty chunks included *)
+Theorem C03_sm3_digest_api : forall key (chunks : list (list N)),
+  sm3_digest_api key chunks = sm3_digest_api_spec key (concat chunks).
+Proof. exact sm3_digest_api_eq. Qed.
+Print Assumptions C03_sm3_digest_api.
+
 Theorem C03_sm3_kdf_stream : forall (chunks : list (list N)) outlen,
   sm3_kdf_stream chunks outlen = sm3_kdf_spec (concat chunks) outlen.
 Proof. exact sm3_kdf_stream_eq. Qed.
